@@ -2,6 +2,7 @@
 from __future__ import annotations
 
 import json
+import warnings
 from collections import Counter
 
 from . import absdata as A
@@ -328,6 +329,128 @@ def frame_checks_sweep(rep, rng, n):
             rep.count("frame-checks:polars:crash:" + type(e).__name__)
 
 
+def polars_report_sweep(rep, rng, n):
+    """polars: eager raises exactly when lazy raises, the eager error is among the lazy errors, and the failure cases of
+    every check name every offending value (columns longer than the five values quoted in the error message)"""
+    try:
+        import polars as pl
+        import pandera.polars as pap
+    except Exception:  # noqa: BLE001
+        return
+    for _ in range(n):
+        m = rng.randint(1, 12)
+        a = [rng.choice([-3, -2, -1, 1, 2, 3, None]) for _ in range(m)]
+        thr = rng.choice([0, 1])
+        level = rng.choice(["column", "frame"])
+        nullable = rng.random() < 0.5
+        col = pap.Column(pl.Int64, [pap.Check.gt(thr)] if level == "column" else [], nullable=nullable)
+        schema = pap.DataFrameSchema({"a": col}, checks=[pap.Check(lambda d, t=thr: d.lazyframe.select(pl.col("a") > t))]
+                                     if level == "frame" else [])
+        df = pl.DataFrame({"a": a}, schema={"a": pl.Int64})
+        case = {"mode": "polars-report", "a": a, "thr": thr, "level": level, "nullable": nullable}
+        out = {}
+        for lazy in (False, True):
+            with warnings.catch_warnings():
+                warnings.simplefilter("ignore")
+                try:
+                    schema.validate(df, lazy=lazy)
+                    out[lazy] = ("ok", None)
+                except pap.errors.SchemaErrors as e:
+                    out[lazy] = ("errors", e)
+                except pap.errors.SchemaError as e:
+                    out[lazy] = ("error", e)
+                except Exception as e:  # noqa: BLE001
+                    out[lazy] = ("crash:" + type(e).__name__, e)
+        rep.case(case, nontrivial=out[True][0] != "ok")
+        rep.evaluations += 1
+        rep.count(f"polars-report:{out[False][0]}/{out[True][0]}")
+        if (out[False][0] == "ok") != (out[True][0] == "ok") or out[False][0].startswith("crash") or out[True][0].startswith("crash"):
+            rep.property_failure(case, f"polars: eager gives {out[False][0]}, lazy gives {out[True][0]} "
+                                       f"({str(out[True][1])[:80] if out[True][0].startswith('crash') else ''})")
+            continue
+        if out[True][0] == "ok":
+            continue
+        lazy_errs = out[True][1].schema_errors
+        eager = out[False][1]
+        if eager.reason_code.name not in {x.reason_code.name for x in lazy_errs}:
+            rep.property_failure(case, f"polars: the eager error ({eager.reason_code.name}) is not among the lazy errors")
+            continue
+        failing = sorted(v for v in a if v is not None and not v > thr)
+        nulls = [v for v in a if v is None]
+        for src, errs in (("lazy", lazy_errs), ("eager", [eager])):
+            for x in errs:
+                if x.reason_code.name != "DATAFRAME_CHECK":
+                    continue
+                fc = x.failure_cases
+                vals = fc["a"].to_list() if hasattr(fc, "columns") and "a" in fc.columns else \
+                    (fc[fc.columns[0]].to_list() if hasattr(fc, "columns") else list(fc))
+                got = sorted(v for v in vals if v is not None)
+                if got != failing:
+                    rep.property_failure(case, f"polars ({src}): the failure cases of the check are {got}, the offending values are "
+                                               f"{failing}")
+                    break
+        _ = nulls
+
+
+def coercion_report_sweep(rep, rng, n):
+    """coercing schemas with an index component: the lazy report has one DATATYPE_COERCION error per component that holds a
+    value it cannot coerce (columns and index alike), naming exactly those values; eager raises iff lazy raises"""
+    import pandas as pd
+    import pandera as pa
+    for _ in range(n):
+        m = rng.randint(1, 5)
+        mk = lambda: [rng.choice(["1", "2", "3", "x", "y"]) for _ in range(m)]  # noqa: E731
+        cols = {k: mk() for k in rng.sample(["a", "b", "c"], rng.randint(1, 3))}
+        idx = mk() if rng.random() < 0.7 else None
+        frame_level = rng.random() < 0.4
+        case = {"mode": "coercion-report", "cols": cols, "index": idx, "frame_level": frame_level}
+        schema = pa.DataFrameSchema({k: pa.Column(int, coerce=not frame_level) for k in cols},
+                                    index=pa.Index(int, coerce=not frame_level, name="ix") if idx is not None else None,
+                                    coerce=frame_level)
+        df = pd.DataFrame(cols, index=pd.Index(idx, name="ix") if idx is not None else None)
+        out = {}
+        for lazy in (False, True):
+            with warnings.catch_warnings():
+                warnings.simplefilter("ignore")
+                try:
+                    schema.validate(df.copy(), lazy=lazy)
+                    out[lazy] = ("ok", None)
+                except pa.errors.SchemaErrors as e:
+                    out[lazy] = ("errors", e)
+                except pa.errors.SchemaError as e:
+                    out[lazy] = ("error", e)
+                except Exception as e:  # noqa: BLE001
+                    out[lazy] = ("crash:" + type(e).__name__, e)
+        bad = {k: sorted(v for v in vs if not v.isdigit()) for k, vs in cols.items()}
+        if idx is not None:
+            bad["ix"] = sorted(v for v in idx if not v.isdigit())
+        bad = {k: v for k, v in bad.items() if v}
+        rep.case(case, nontrivial=bool(bad))
+        rep.evaluations += 1
+        rep.count(f"coercion-report:{len(bad)}-components:{out[False][0]}/{out[True][0]}")
+        if any(o[0].startswith("crash") for o in out.values()):
+            rep.property_failure(case, f"coercion: eager gives {out[False][0]}, lazy gives {out[True][0]}")
+            continue
+        if (out[False][0] == "ok") != (not bad) or (out[True][0] == "ok") != (not bad):
+            rep.property_failure(case, f"coercion: uncoercible values {bad}; eager gives {out[False][0]}, lazy gives {out[True][0]}")
+            continue
+        if not bad:
+            continue
+        e = out[True][1]
+        got = {}
+        for x in e.schema_errors:
+            if x.reason_code.name == "DATATYPE_COERCION":
+                fc = x.failure_cases
+                vals = sorted(str(v) for v in (fc["failure_case"].tolist() if hasattr(fc, "columns") else [fc]))
+                got[str(x.schema.name)] = vals
+        if got != bad:
+            rep.property_failure(case, f"coercion: the lazy report names {got}, the values that cannot be coerced are {bad}")
+        elif dict(e.error_counts).get("DATATYPE_COERCION") != len(bad):
+            rep.property_failure(case, f"coercion: error_counts {dict(e.error_counts)} for {len(bad)} components with uncoercible values")
+        elif out[False][1].reason_code.name != "DATATYPE_COERCION":
+            rep.property_failure(case, f"coercion: the eager error is {out[False][1].reason_code.name}")
+
+
 def n_cases(tier):
     return 1200 if tier == "quick" else 30000
 
@@ -339,6 +462,12 @@ def run(tier, replay=None):
     rep.audit["modules"] = MODULES
     if replay:
         cases = [json.loads(open(replay).read())["case"]]
+        if cases[0].get("mode") == "coercion-report":
+            coercion_report_sweep(rep, rng_for(PROP, "coercion-report"), 150)
+            return rep.finish(rule="replay of the coercion report sweep (deterministic under VERIF_SEED)")
+        if cases[0].get("mode") == "polars-report":
+            polars_report_sweep(rep, rng_for(PROP, "polars-report"), 150)
+            return rep.finish(rule="replay of the polars report sweep (deterministic under VERIF_SEED)")
         if cases[0].get("mode") == "frame-checks":
             frame_checks_sweep(rep, rng_for(PROP, "frame-checks"), 150)
             return rep.finish(rule="replay of the dataframe-level check sweep (deterministic under VERIF_SEED)")
@@ -356,6 +485,8 @@ def run(tier, replay=None):
         depth_counts_sweep(rep, rng_for(PROP, "depth-counts"), 150 if tier == "quick" else 3000)
         multiindex_report_sweep(rep, rng_for(PROP, "mi-report"), 200 if tier == "quick" else 5000)
         frame_checks_sweep(rep, rng_for(PROP, "frame-checks"), 150 if tier == "quick" else 3000)
+        polars_report_sweep(rep, rng_for(PROP, "polars-report"), 150 if tier == "quick" else 3000)
+        coercion_report_sweep(rep, rng_for(PROP, "coercion-report"), 150 if tier == "quick" else 3000)
     impl = [impl_observe(c) for c in cases]
     ans = run_driver("C01", [dict(c, depth="schemaAndData") for c in cases])
     for c, o, a in zip(cases, impl, ans):
